@@ -190,6 +190,10 @@ func afterRefusals(k int) {
 		func() { _, _ = gsm7.Encode(txt) },
 		func() { _, _, _ = transform.Bytes(gsm7.GSM7(false).NewEncoder(), []byte(txt)) },
 		func() { _, _, _ = transform.Bytes(gsm7.GSM7(true).NewEncoder(), []byte(txt)) },
+		func() { _, _, _ = transform.Bytes(reusedEncU, []byte(txt)) },
+		func() { _, _, _ = transform.Bytes(reusedEncP, []byte(txt)) },
+		func() { _, _, _ = transform.Bytes(reusedDecU, bad) },
+		func() { _, _, _ = transform.Bytes(reusedDecP, gsm7.Pack(bad)) },
 		func() { _, _ = protocol.DecodeSMPPCContent(ctx, string(gsm7.Pack(bad)), 0) },
 		func() { _, _ = protocol.DecodeSMPPCContent(ctx, "\x00A\xd8", 8) },
 		func() { _, _ = protocol.DecodeCMPPCContent(ctx, "AB\x81", 15) },
